@@ -11,7 +11,7 @@ import (
 	"sort"
 	"strings"
 
-	"golang.org/x/tools/go/ssa"
+	"trzszlint/xssa"
 )
 
 // tailCall: nothing but jumps / deferred calls / the return follows ci in its function.
